@@ -143,6 +143,9 @@ func c01Run(r *zsim.Run) {
 				if outcome == 4 && api != 1 && api != 3 {
 					outcome = 0 // only the WithAcceptable forms take a predicate
 				}
+				// the caller's predicate may itself panic (it looked at a response that is not there): the call
+				// was admitted, so it is a failure, and the panic is the caller's
+				predPanics := outcome == 4 && o.Intn(3) == 0
 				viaRegistry := name != "anon" && o.Intn(2) == 0
 				ran := false
 				var reqStart, reqEnd int64
@@ -186,6 +189,9 @@ func c01Run(r *zsim.Run) {
 				// the predicate is the caller's: this call's rejects a nil error (e.g. it looks at the response as well)
 				acceptable := func(err error) bool {
 					if outcome == 4 {
+						if predPanics {
+							panic("predicate-panic")
+						}
 						return false
 					}
 					return acceptable(err)
@@ -319,7 +325,7 @@ func c01Run(r *zsim.Run) {
 						}
 					}
 					if api != 5 {
-						if outcome == 3 {
+						if outcome == 3 || predPanics {
 							if panicked == nil {
 								r.Failf("panic-not-reraised", "the protected function panicked but the call returned %v", err)
 								return
